@@ -188,7 +188,7 @@ def mutants(img, r, positions=None, limit=None):
         out.append(('trunc', i, img[:i]))
     for i in offs:
         b = img[i]
-        for v in sorted({0, 1, 2, 3, 0xff, 0x7f, 0x80, b ^ 1, (b + 1) & 255, (b - 1) & 255, 36, 37, 200}):
+        for v in sorted({0, 1, 2, 3, 6, 7, 12, 13, 14, 16, 17, 31, 32, 36, 37, 0x7f, 0x80, 200, 0xff, b ^ 1, (b + 1) & 255, (b - 1) & 255}):
             if v != b:
                 out.append(('subst', i, img[:i] + bytes([v]) + img[i + 1:]))
     for i in offs:
